@@ -52,10 +52,17 @@ def cases(tier, seed):
     for prog in progs.cat():
         if 'fancy' in prog.tags:
             continue
-        for rep in range(1 if tier == 'quick' else 3):
+        for rep in range((1 if tier == 'quick' else 3) * (5 if 'zero-base' in prog.tags else 1)):          # exact zeros in some directions only: several draws
             out.append({'kind': 'program', 'seed': case_seed('C11', seed, prog.name, rep), 'params': {'prog': prog.name, 'P': 2 + rep % 2, 'D': [2, 1, 3][rep % 3]}})
     for i in range(80 if tier == 'quick' else 20000):
         out.append({'kind': 'program', 'seed': case_seed('C11', seed, 'comp', i), 'params': {'prog': 'comp', 'P': 2 + i % 2, 'D': 1 + i % 3}})
+    # one direction whose whole polynomial is 1e10 times larger than the others (factorizations and linear algebra are
+    # homogeneous): thresholds and tolerances inside the kernels have to be taken per direction, in both sweeps
+    for prog in progs.cat():
+        if ({'fact', 'linalg'} & prog.tags) and not ({'fancy', 'scale'} & prog.tags):
+            for rep in range(1 if tier == 'quick' else 4):
+                out.append({'kind': 'program', 'seed': case_seed('C11', seed, prog.name, 'dirscale', rep),
+                            'params': {'prog': prog.name, 'P': 2 + rep % 2, 'D': [2, 1, 3][rep % 3], 'dirscale': [1e10, 1e-10][rep % 2]}})
     return out
 
 
@@ -169,6 +176,12 @@ def _program(ctx, p, rng):
     xs = [gen.series_data(rng, D, P, shape, dom, 'random', False, 0.4) for shape, dom in ins]
     if prog is not None and not all(prog.in_domain([x[0, pp] for x in xs]) for pp in range(P)):
         ctx.skip('out_of_domain:regularity-condition'); return
+    LIMIT = 1e8
+    if p.get('dirscale'):
+        for x in xs:
+            x[:, P - 1] *= p['dirscale']
+        LIMIT = 1e80
+        name = name + ':one-direction-scaled'
     probe.S.suppress = True            # program-level comparison: the per-call shadow is not needed here
     try:
         try:
@@ -185,13 +198,14 @@ def _program(ctx, p, rng):
             try:
                 cg.pullback([UTPM(ybar.copy())])
                 xbfull = [fx.xbar.data.copy() for fx in cg.independentFunctionList]
-                if not all(np.all(np.isfinite(xb)) for xb in xbfull) or max(np.max(np.abs(xb)) for xb in xbfull) > 1e8:
-                    rev = False; ctx.skip('out_of_domain:nonfinite-or-huge-adjoint')
+                if all(np.all(np.isfinite(xb)) for xb in xbfull) and max(np.max(np.abs(xb)) for xb in xbfull) > LIMIT:
+                    rev = False; ctx.skip('out_of_domain:huge-adjoint')
+                # a non-finite adjoint of the full run is compared below: out of the domain only if the reduced run is non-finite too
             except Exception:
                 rev = False
         except Exception:
             ctx.skip('replay-raises:' + name); return
-        if not np.all(np.isfinite(yfull)) or (yfull.size and np.max(np.abs(yfull)) > 1e8):
+        if not np.all(np.isfinite(yfull)) or (yfull.size and np.max(np.abs(yfull)) > LIMIT):
             ctx.skip('out_of_domain:nonfinite'); return
         for pp in range(P):
             cg.pushforward([UTPM(x[:, pp:pp + 1].copy()) for x in xs])
@@ -204,6 +218,8 @@ def _program(ctx, p, rng):
                 cg.pullback([UTPM(ybar[:, pp:pp + 1].copy())])
                 for fx, xb in zip(cg.independentFunctionList, xbfull):
                     x1 = fx.xbar.data
+                    if not np.all(np.isfinite(x1)):
+                        ctx.skip('out_of_domain:nonfinite-adjoint'); continue
                     s = _scale(x1) + 1e-9 * np.max(np.abs(ybar))
                     err = np.abs(xb[:, pp:pp + 1] - x1).reshape(D, -1).max(axis=1) / s
                     if not np.all(err <= TOL * 10):
